@@ -728,6 +728,10 @@ def weave_fn(w, item_id, text, spec, log):
             # anchor given as a regular expression (tolerates edits inside the anchored statement)
             anchor = p.get('after_re') or p.get('before_re')
             ms = list(re.finditer(anchor, text))
+            if len(ms) < nth and p.get('optional') and not p.get('label'):
+                # an unlabelled proof HINT whose statement is absent from this tree: skipped (the obligations decide)
+                log.append(('R10', '%s: optional proof hint /%s/ has no anchor in this tree; skipped' % (item_id, anchor)))
+                continue
             if len(ms) < nth:
                 raise Undecided('%s: proof anchor /%s/ (occurrence %d) not found' % (item_id, anchor, nth))
             at = ms[nth - 1].end() if p.get('after_re') else ms[nth - 1].start()
